@@ -71,22 +71,49 @@ func runC14(t *testing.T, seed int64, n int, out *Out) {
 		height := int64(10 + r.Intn(100))
 		ctx = ctx.WithBlockHeight(height)
 		eden := bigAmount(r).MulRaw(int64(1 + r.Intn(4)))
-		c := app.CommitmentKeeper.GetCommitments(ctx, addr)
-		c.AddClaimed(sdk.NewCoin("ueden", eden))
-		app.CommitmentKeeper.SetCommitments(ctx, c)
+		// every fourth sequence vests a LIQUID token on its own schedule (MsgVestLiquid: deposited into, and paid back out of, the
+		// commitment module) instead of Eden: same schedule arithmetic, same model - the funds available to vest are the wallet's
+		// balance, the payout denom is the token itself; no cancel / vest-now (they only exist for Eden)
+		liquid := seq%4 == 3
+		payDenom := "uelys"
+		paidTotal := math.ZeroInt()
+		if liquid {
+			payDenom = "uusdc"
+			w.Fund(ctx, addr, sdk.NewCoins(sdk.NewCoin("uusdc", eden)))
+			e, _ := app.AssetprofileKeeper.GetEntry(ctx, "uusdc")
+			e.BaseDenom, e.Denom, e.CommitEnabled, e.WithdrawEnabled = "uusdc", "uusdc", true, true
+			app.AssetprofileKeeper.SetEntry(ctx, e)
+		} else {
+			c := app.CommitmentKeeper.GetCommitments(ctx, addr)
+			c.AddClaimed(sdk.NewCoin("ueden", eden))
+			app.CommitmentKeeper.SetCommitments(ctx, c)
+		}
 		num := numChoices[r.Intn(len(numChoices))]
 		maxV := maxVChoices[r.Intn(len(maxVChoices))]
 		setInfo := func(num, maxV int64) {
 			p := app.CommitmentKeeper.GetParams(ctx)
-			p.VestingInfos = []ctypes.VestingInfo{{BaseDenom: "ueden", VestingDenom: "uelys", NumBlocks: num, VestNowFactor: math.NewInt(int64(1 + r.Intn(120))), NumMaxVestings: maxV}}
+			p.VestingInfos = []ctypes.VestingInfo{{BaseDenom: "ueden", VestingDenom: "uelys", NumBlocks: num, VestNowFactor: math.NewInt(int64(1 + r.Intn(120))), NumMaxVestings: maxV},
+				{BaseDenom: "uusdc", VestingDenom: "uusdc", NumBlocks: num, VestNowFactor: math.NewInt(90), NumMaxVestings: maxV}}
 			p.EnableVestNow = r.Intn(4) != 0
 			app.CommitmentKeeper.SetParams(ctx, p)
 		}
 		setInfo(num, maxV)
-		out.Line(map[string]any{"t": "c14.begin", "id": seq, "eden": eden.String(), "maxv": maxV})
+		out.Line(map[string]any{"t": "c14.begin", "id": seq, "eden": eden.String(), "maxv": maxV, "liquid": liquid})
+		vestedNow := math.ZeroInt() // liquid: the amount a successful vest op just took out of the wallet
 		observe := func(balBefore math.Int) c14After {
 			c := app.CommitmentKeeper.GetCommitments(ctx, addr)
 			a := c14After{Entries: [][]string{}, Eden: c.Claimed.AmountOf("ueden").String()}
+			if liquid {
+				paid := app.BankKeeper.GetBalance(ctx, addr, payDenom).Amount.Sub(balBefore).Add(vestedNow)
+				paidTotal = paidTotal.Add(paid)
+				a.Eden = app.BankKeeper.GetBalance(ctx, addr, payDenom).Amount.Sub(paidTotal).String()
+				for _, v := range c.VestingTokens {
+					a.Entries = append(a.Entries, []string{v.TotalAmount.String(), v.ClaimedAmount.String(), fmt.Sprint(v.StartBlock), fmt.Sprint(v.NumBlocks)})
+				}
+				a.Paid = paid.String()
+				vestedNow = math.ZeroInt()
+				return a
+			}
 			for _, v := range c.VestingTokens {
 				a.Entries = append(a.Entries, []string{v.TotalAmount.String(), v.ClaimedAmount.String(), fmt.Sprint(v.StartBlock), fmt.Sprint(v.NumBlocks)})
 			}
@@ -119,16 +146,25 @@ func runC14(t *testing.T, seed int64, n int, out *Out) {
 				height = maxEnd + int64(r.Intn(3))
 			}
 			ctx = ctx.WithBlockHeight(height)
-			bal := app.BankKeeper.GetBalance(ctx, addr, "uelys").Amount
+			bal := app.BankKeeper.GetBalance(ctx, addr, payDenom).Amount
 			line := map[string]any{"t": "c14.op", "id": seq, "h": height}
 			var res string
 			choice := r.Intn(10)
+			if liquid && choice >= 7 {
+				choice -= 7 // vest or claim only
+			}
+			if liquid && choice < 3 && !bal.Sub(paidTotal).IsPositive() {
+				choice = 4 // nothing left to vest (what the wallet holds was paid out): claim instead
+			}
 			if final {
 				choice = 4
 			}
 			switch {
 			case choice < 3: // vest
 				claimed := app.CommitmentKeeper.GetCommitments(ctx, addr).Claimed.AmountOf("ueden")
+				if liquid {
+					claimed = bal.Sub(paidTotal)
+				}
 				var amt math.Int
 				switch r.Intn(4) {
 				case 0:
@@ -143,8 +179,27 @@ func runC14(t *testing.T, seed int64, n int, out *Out) {
 				if !amt.IsPositive() {
 					amt = math.OneInt()
 				}
-				msg := &ctypes.MsgVest{Creator: addr.String(), Amount: amt, Denom: "ueden"}
-				res, _ = callTx(ctx, func(c sdk.Context) error { _, err := ms.Vest(c, msg); return err })
+				if liquid {
+					// never more than the not-yet-vested funds: what was paid out earlier is the owner's to keep, not part of the model's bucket
+					if amt.GT(claimed) && r.Intn(3) != 0 {
+						amt = claimed
+					}
+					if !amt.IsPositive() {
+						amt = math.OneInt()
+					}
+					if amt.GT(claimed) {
+						// the wallet also holds earlier payouts, which the real deposit would accept: not the model's concern
+						amt = math.MaxInt(claimed, math.OneInt())
+					}
+					lmsg := &ctypes.MsgVestLiquid{Creator: addr.String(), Amount: amt, Denom: "uusdc"}
+					res, _ = callTx(ctx, func(c sdk.Context) error { _, err := ms.VestLiquid(c, lmsg); return err })
+					if res == "ok" {
+						vestedNow = amt
+					}
+				} else {
+					msg := &ctypes.MsgVest{Creator: addr.String(), Amount: amt, Denom: "ueden"}
+					res, _ = callTx(ctx, func(c sdk.Context) error { _, err := ms.Vest(c, msg); return err })
+				}
 				line["op"], line["amt"], line["num"] = "vest", amt.String(), num
 				if res == "ok" && height+num > maxEnd {
 					maxEnd = height + num
